@@ -170,6 +170,10 @@ def gen_cases(tier, seed):
     for sp in windows.rmw_cases(rng, nths=(0, 1) if quick else (0, 1, 2, 3), reps=1 if quick else 3):
         sp['family'] = 'C-rmw'
         cases.append(sp)
+    # (E) a BaseException that is neither an Exception nor a KeyboardInterrupt raised inside the submission step
+    from .c03 import base_in_submission_cases
+
+    cases += base_in_submission_cases(rng, quick, family='E-base-in-submission')
     # (D) re-entrant subscribers
     for kind, extra in gen.KINDS:
         for where, acts in REENTER.items():
